@@ -608,6 +608,49 @@ func (v *vCtx) runOp(ctx context.Context, op map[string]any) (res map[string]any
 	case "delete_expired_subscriptions":
 		a := actions.NewDeleteExpiredSubscriptions(prune())
 		act, results = a, func() any { r, _ := a.Results(); return r }
+	case "prune_rounds_reused":
+		// the background services build each job's action object once and execute the same object every round: first one round, then the
+		// clock moves on by shift_after_first, then `rounds` more rounds
+		p := prune()
+		jobs := []vExec{}
+		for _, j := range op["jobs"].([]any) {
+			switch j.(string) {
+			case "prune_completed_deliveries":
+				jobs = append(jobs, actions.NewPruneCompletedDeliveries(p))
+			case "prune_expired_deliveries":
+				jobs = append(jobs, actions.NewPruneExpiredDeliveries(p))
+			case "prune_completed_messages":
+				jobs = append(jobs, actions.NewPruneCompletedMessages(p))
+			case "prune_deleted_subscription_deliveries":
+				jobs = append(jobs, actions.NewPruneDeletedSubscriptionDeliveries(p))
+			case "prune_deleted_subscriptions":
+				jobs = append(jobs, actions.NewPruneDeletedSubscriptions(p))
+			case "prune_deleted_topics":
+				jobs = append(jobs, actions.NewPruneDeletedTopics(p))
+			}
+		}
+		errs := 0
+		round := func() {
+			for _, j := range jobs {
+				if err := v.client.DoCtxTx(ctx, nil, j.Execute); err != nil {
+					errs++
+				}
+			}
+		}
+		round()
+		d := time.Duration(vInt(op["shift_after_first"]))
+		if d <= 10*time.Second {
+			// really wait: moving the stored timestamps instead of the clock would hide state an action object keeps about "now"
+			time.Sleep(d)
+		} else {
+			v.realBase = v.realBase.Add(-d)
+			v.shiftAll(ctx, d)
+		}
+		for i := 0; i < int(vInt(op["rounds"])); i++ {
+			round()
+		}
+		res["job_errors"] = errs
+		return
 	case "notify_wake":
 		// waiters[i] publish awaiters on subscription i; then WakePublishListeners(false, wake...)
 		var subs []uuid.UUID
